@@ -44,13 +44,17 @@ Wrap(c, x) ==
     [] c = 17 -> [n |-> Lit(BadFor(x), <<R("type", [t |-> "tref", s |-> "@B"])>>), path |-> <<>>]
     [] c = 18 -> [n |-> Obj(<<P(Ka, Lit(NumD(N1), <<R("type", [t |-> "tref", s |-> "@I"])>>)),
                               P(Kb, Lit(BadFor(x), <<R("type", [t |-> "tref", s |-> "@B"])>>))>>, <<>>), path |-> <<"b">>]
+    \* two values refer to the same type @B: the first obeys it, the second does not (each value is checked against the type on its own)
+    [] c = 20 -> [n |-> Obj(<<P(Ka, Lit(GoodFor(x), <<R("type", [t |-> "tref", s |-> "@B"])>>)),
+                              P(Kb, Lit(BadFor(x), <<R("type", [t |-> "tref", s |-> "@B"])>>))>>, <<>>), path |-> <<"b">>]
+    [] c = 21 -> [n |-> Arr(<<Lit(GoodFor(x), <<R("type", [t |-> "tref", s |-> "@B"])>>), Lit(BadFor(x), <<R("type", [t |-> "tref", s |-> "@B"])>>)>>, <<>>), path |-> <<"1">>]
     \* the value sits in @B, a property of which @A0 inherits through allOf; @A0 is checked before @B (names in order): file and offset are @B's
     [] c = 19 -> [n |-> Obj(<<P(Kp, Plain1)>>, <<>>), path |-> <<>>]
-Contexts == 0..19
+Contexts == 0..21
 Inherited(c) == c = 19
-RefBad(c) == c \in {17, 18}
+RefBad(c) == c \in {17, 18, 20, 21}
 InType(c) == c \in 10..14 \/ c = 19
-NonPlain(c) == c \in 10..19                 \* the root's example is not plain JSON (it names types): C04's forward half does not apply
+NonPlain(c) == c \in 10..21                 \* the root's example is not plain JSON (it names types): C04's forward half does not apply
 
 RECURSIVE ExampleOf(_)
 ExampleOf(n) ==
@@ -88,10 +92,10 @@ VARIABLES leaf, ctx, good
 Init == /\ ctx \in Contexts
         /\ \/ (good = TRUE /\ leaf \in GoodLeaves /\ ~RefBad(ctx)) \/ (good = FALSE /\ leaf \in BadLeaves /\ ~RefBad(ctx))
            \/ (good = FALSE /\ RefBad(ctx) /\ leaf \in {x \in Schemas : x.t = "lit"} /\ BadSet(leaf) # {})
-        /\ (Level = 1 => (ctx \in {0, 1, 3, 4, 7, 8, 10, 12, 13, 14, 15, 17, 18, 19}))
+        /\ (Level = 1 => (ctx \in {0, 1, 3, 4, 7, 8, 10, 12, 13, 14, 15, 17, 18, 19, 20, 21}))
         /\ (InType(ctx) => leaf.t = "lit")
         /\ (NonPlain(ctx) => leaf.t \in {"lit", "arr"})
-        /\ (ctx \in {13, 14} => GoodSet(leaf) # {})
+        /\ (ctx \in {13, 14, 20, 21} => GoodSet(leaf) # {})
 Next == UNCHANGED <<leaf, ctx, good>>
 Spec == Init /\ [][Next]_<<leaf, ctx, good>>
 W == Wrap(ctx, leaf)
